@@ -1,14 +1,15 @@
 (** Round trip through the whole parser model for files made of the declaration kinds whose
     derivations are proved in ParserRoundTrip.v (typedef of a base type), ParserRoundTripEnum.v
-    (enum), ParserRoundTripStruct.v (struct / exception / union with fields) and ParserRoundTripConst.v
-    (const with an integer or plain string value): the statement loop of
+    (enum), ParserRoundTripStruct.v (struct / exception / union with fields), ParserRoundTripConst.v
+    (const with an integer or plain string value) and ParserRoundTripService.v (service with methods):
+    the statement loop of
     the Grammar rule and the Grammar action, generically over "statements that Statement (2) parses
     to a known value", then instantiated.  C10 stage 5: [c10_roundtrip_structs_partial]. *)
 From Coq Require Import ZArith List Bool Arith Lia String.
 From FV Require Import Model.PegSyntax Model.Peg Model.PegWf Model.ParserStrings Model.ParserAst
      Model.ParserActions Model.Parser Proofs.PegProofs Proofs.ParserProofs Proofs.ParserLexProofs
      Proofs.ParserEvals Proofs.ParserRoundTrip Proofs.ParserRoundTripEnum Proofs.ParserRoundTripStruct
-     Proofs.ParserRoundTripConst.
+     Proofs.ParserRoundTripConst Proofs.ParserRoundTripService.
 Import ListNotations.
 Local Open Scope Z_scope.
 
@@ -101,10 +102,12 @@ Inductive xdecl :=
 | X_typedef (d : td_spec)
 | X_enum (e : en_spec)
 | X_struct (d : st_spec)
-| X_const (d : cn_spec).
+| X_const (d : cn_spec)
+| X_service (s : sv_spec).
 
 Definition xdecl_ok (d : xdecl) : Prop :=
-  match d with X_typedef t => td_ok t | X_enum e => en_ok e | X_struct s => st_ok s | X_const c => cn_ok c end.
+  match d with X_typedef t => td_ok t | X_enum e => en_ok e | X_struct s => st_ok s | X_const c => cn_ok c
+  | X_service v => sv_ok v end.
 
 Definition stmt_of (d : xdecl) : stmt :=
   match d with
@@ -112,6 +115,7 @@ Definition stmt_of (d : xdecl) : stmt :=
   | X_enum e => mk_stmt (render_enum e) (e_w e) (VEnum (enum_of e))
   | X_struct s => mk_stmt (render_st s) (sl_w (st_sl s)) (kind_val (st_kind s) (struct_of (st_sl s)))
   | X_const c => mk_stmt (render_cn c) (cn_w c) (VConst (const_of c))
+  | X_service v => mk_stmt (render_sv v) (sv_w v) (VService (service_of v))
   end.
 
 Definition render_xdecl (d : xdecl) (more : bytes) : bytes := sm_render (stmt_of d) more.
@@ -123,7 +127,7 @@ Proof. induction ds as [|d r IH]; [reflexivity|]. cbn [render_file map render_st
 
 Lemma stmt_of_good : forall d, xdecl_ok d -> stmt_good (stmt_of d).
 Proof.
-  intros [t|e|s|c] Hd; cbn [xdecl_ok stmt_of] in *; (split; [|split]); cbn [sm_render sm_w sm_val].
+  intros [t|e|s|c|v] Hd; cbn [xdecl_ok stmt_of] in *; (split; [|split]); cbn [sm_render sm_w sm_val].
   - destruct Hd as (_ & _ & _ & _ & _ & _ & _ & Hw). exact Hw.
   - intros more. unfold decl_follow, render_one, lit_typedef. cbn [app]. split; [unfold ascii; lia | repeat constructor; lia].
   - intros more cr o es fr Hm. exact (statement_typedef t more cr o es fr Hd Hm).
@@ -137,6 +141,9 @@ Proof.
   - destruct Hd as (_ & _ & _ & _ & _ & _ & _ & _ & _ & Hw). exact Hw.
   - intros more. unfold decl_follow, render_cn, lit_const. cbn [app]. split; [unfold ascii; lia | repeat constructor; lia].
   - intros more cr o es fr Hm. exact (statement_const c more cr o es fr Hd Hm).
+  - destruct Hd as (_ & _ & _ & _ & _ & _ & _ & _ & Hw). exact Hw.
+  - intros more. unfold decl_follow, render_sv, lit_service. cbn [app]. split; [unfold ascii; lia | repeat constructor; lia].
+  - intros more cr o es fr Hm. exact (statement_service v more cr o es fr Hd Hm).
 Qed.
 
 (** ** what the Grammar action makes of them *)
@@ -154,6 +161,8 @@ Fixpoint x_typedefs (ds : list xdecl) : list typedef :=
   match ds with [] => [] | X_typedef t :: r => typedef_of t :: x_typedefs r | _ :: r => x_typedefs r end.
 Fixpoint x_consts (ds : list xdecl) : list constant :=
   match ds with [] => [] | X_const c :: r => const_of c :: x_consts r | _ :: r => x_consts r end.
+Fixpoint x_services (ds : list xdecl) : list service :=
+  match ds with [] => [] | X_service v :: r => service_of v :: x_services r | _ :: r => x_services r end.
 Fixpoint x_enums (ds : list xdecl) : list enum :=
   match ds with [] => [] | X_enum e :: r => enum_of e :: x_enums r | _ :: r => x_enums r end.
 Fixpoint x_kind (k : sl_kind) (ds : list xdecl) : list struct :=
@@ -171,28 +180,29 @@ Definition x_extend (f : frugal) (ds : list xdecl) : frugal :=
   mkfrugal (fr_includes f) (fr_namespaces f) (fr_typedefs f ++ x_typedefs ds) (fr_constants f ++ x_consts ds)
            (fr_enums f ++ x_enums ds) (fr_structs f ++ x_kind K_struct ds)
            (fr_exceptions f ++ x_kind K_exception ds) (fr_unions f ++ x_kind K_union ds)
-           (fr_services f) (fr_scopes f).
+           (fr_services f ++ x_services ds) (fr_scopes f).
 
 Lemma add_statements_x : forall ds f,
   add_statements (map stmt_loop_val (map stmt_of ds)) f = Some (inl (x_extend f ds)).
 Proof.
   induction ds as [|d r IH]; intros f.
-  - unfold x_extend. cbn [map add_statements x_typedefs x_consts x_enums x_kind]. rewrite !app_nil_r. destruct f; reflexivity.
+  - unfold x_extend. cbn [map add_statements x_typedefs x_consts x_enums x_kind x_services]. rewrite !app_nil_r. destruct f; reflexivity.
   - cbn [map]. unfold stmt_loop_val at 1.
-    destruct d as [t|e|[k g1 s]|c]; [| |destruct k|];
+    destruct d as [t|e|[k g1 s]|c|v]; [| |destruct k| |];
       cbn [stmt_of sm_val sm_w kind_val st_kind st_sl add_statements first_of as_list idx nth_error obind];
       rewrite IH; unfold x_extend;
       cbn [fr_includes fr_namespaces fr_typedefs fr_constants fr_enums fr_structs fr_exceptions fr_unions
-           fr_services fr_scopes x_typedefs x_consts x_enums x_kind st_kind];
+           fr_services fr_scopes x_typedefs x_consts x_enums x_kind x_services st_kind];
       rewrite <- ?app_assoc; reflexivity.
 Qed.
 
 (** the tree of a file of the fragment *)
 Definition frugal_of (ds : list xdecl) : frugal :=
-  mkfrugal [] [] (x_typedefs ds) (x_consts ds) (x_enums ds) (x_kind K_struct ds) (x_kind K_exception ds) (x_kind K_union ds) [] [].
+  mkfrugal [] [] (x_typedefs ds) (x_consts ds) (x_enums ds) (x_kind K_struct ds) (x_kind K_exception ds) (x_kind K_union ds)
+           (x_services ds) [].
 
-(** ** parse (render m) = m for files of typedefs of base types, enums, structs, exceptions, unions and
-    constants *)
+(** ** parse (render m) = m for files of typedefs of base types, enums, structs, exceptions, unions,
+    constants and services *)
 Theorem roundtrip_file : forall w0 ds,
   run_of p_wsnl w0 -> Forall xdecl_ok ds ->
   parse_idl (w0 ++ render_file ds) = POk (frugal_of ds).
